@@ -702,7 +702,7 @@ func searchSideUniquePkg(c *ordCtx, rs *ast.RangeStmt) (bool, string) {
 		if !ok || be.Op != token.EQL {
 			return false, "the walker accepts the visited package under `" + es(is.Cond) + "`, which is not an equality of package identities: several packages of the import graph can satisfy it (a path that extends another one, a shared name), and the first one met in map order wins"
 		}
-		kx, ky := pkgStringKind(c.info, be.X), pkgStringKind(c.info, be.Y)
+		kx, ky := pkgKindThroughParam(c, be.X), pkgKindThroughParam(c, be.Y)
 		if !((kx == "path" || kx == "obj") && (ky == "path" || ky == "obj")) {
 			return false, "the walker accepts the visited package under `" + es(is.Cond) + "`, which does not compare import paths or package objects: the match is not unique in the import graph"
 		}
@@ -1027,7 +1027,192 @@ func uniquePkgSearch(c *ordCtx, rs *ast.RangeStmt) (bool, string) {
 		}
 	}
 	if good, _ := searchSideUniquePkg(c, rs); !good {
+		// a generic walker: the visited package is accepted by a callback parameter (`if out := match(pa); out != nil
+		// { return out }` before the loop); every callback passed at the non-recursive call sites must accept at
+		// most one package of the graph
+		if callbackWalker(c, rs, self) {
+			return true, "depth-first search of the import graph with the acceptance test passed as a callback: the loop only skips packages and returns the first non-nil result of the recursive call, and every callback passed to the walker accepts a package under an equality of package identities or a containment test of a position in a file's Pos()..End() range, which at most one package satisfies; the result does not depend on the visiting order [recognised structurally on this run]"
+		}
 		return false, ""
 	}
 	return true, "depth-first search of the import graph for the package with a given identity: the loop only skips packages and returns the first non-nil result of the recursive call, and the walker accepts a package only under an equality of import paths or package objects, which at most one package of the graph satisfies; the result does not depend on the visiting order [recognised structurally on this run]"
+}
+
+// pkgKindThroughParam: pkgStringKind, and for a string parameter of the enclosing declared function the common kind
+// of what its non-recursive call sites pass (a walker taking the searched import path as a parameter).
+func pkgKindThroughParam(c *ordCtx, e ast.Expr) string {
+	if k := pkgStringKind(c.info, e); k != "" {
+		return k
+	}
+	id := identOf(e)
+	if id == nil {
+		return ""
+	}
+	obj := objOf(c.info, id)
+	fobj, _ := c.pkg.TypesInfo.Defs[c.fd.Name].(*types.Func)
+	fi := c.w.Funcs[fobj]
+	if fi == nil {
+		return ""
+	}
+	pi := paramIndex(fi, obj)
+	if pi < 0 {
+		return ""
+	}
+	kind := ""
+	for _, caller := range sortedFuncs(c.w) {
+		if caller.Decl.Body == nil {
+			continue
+		}
+		cinfo := caller.Pkg.TypesInfo
+		bad := false
+		ast.Inspect(caller.Decl.Body, func(x ast.Node) bool {
+			call, ok := x.(*ast.CallExpr)
+			if !ok || calleeOf(cinfo, call) != fobj || pi >= len(call.Args) {
+				return true
+			}
+			arg := call.Args[pi]
+			// the recursive call hands the parameter on unchanged
+			if caller == fi {
+				if aid := identOf(arg); aid != nil && objOf(cinfo, aid) == obj {
+					return true
+				}
+			}
+			k := pkgStringKind(cinfo, arg)
+			if k == "" || (kind != "" && k != kind) {
+				bad = true
+			}
+			kind = k
+			return true
+		})
+		if bad {
+			return ""
+		}
+	}
+	return kind
+}
+
+// uniqueMatcher: a callback handed to a generic package walker accepts at most one package of the import graph. Every
+// return of a non-nil value is reached under an equality of package identities (import paths or package objects), or
+// under a containment test of a position in the Pos()..End() range of a syntax node (file ranges are disjoint).
+func uniqueMatcher(w *World, fi *FuncInfo, cb ast.Expr) bool {
+	body, info, _ := callbackOf(w, fi, cb)
+	if body == nil {
+		return false
+	}
+	// path conditions are computed on the enclosing declaration of the callback
+	host := funcContaining(body)
+	if host == nil {
+		return false
+	}
+	ok, n := true, 0
+	ast.Inspect(body, func(x ast.Node) bool {
+		if lit, isLit := x.(*ast.FuncLit); isLit && lit.Body != body {
+			return false
+		}
+		ret, isRet := x.(*ast.ReturnStmt)
+		if !isRet || len(ret.Results) != 1 {
+			return true
+		}
+		if es(ret.Results[0]) == "nil" {
+			return true
+		}
+		n++
+		unique := false
+		for _, c := range pathConds(host.Decl, ret) {
+			if c.expr == nil || !c.truth || c.expr.Pos() < body.Pos() || c.expr.End() > body.End() {
+				continue
+			}
+			be, isBin := c.expr.(*ast.BinaryExpr)
+			if !isBin {
+				continue
+			}
+			switch be.Op {
+			case token.EQL:
+				kx, ky := pkgStringKind(info, be.X), pkgStringKind(info, be.Y)
+				if (kx == "path" || kx == "obj") && (ky == "path" || ky == "obj") {
+					unique = true
+				}
+			case token.LEQ, token.LSS, token.GEQ, token.GTR:
+				for _, side := range []ast.Expr{be.X, be.Y} {
+					if call, isCall := ast.Unparen(side).(*ast.CallExpr); isCall {
+						if fn := calleeOf(info, call); fn != nil && (fn.Name() == "Pos" || fn.Name() == "End") && fn.Pkg() != nil && fn.Pkg().Path() == "go/ast" {
+							unique = true
+						}
+					}
+				}
+			}
+		}
+		if !unique {
+			ok = false
+		}
+		return true
+	})
+	return ok && n > 0
+}
+
+// callbackWalker: the declared function holding rs accepts the visited package through a function-typed parameter, and
+// every call of it from another function passes a uniqueMatcher.
+func callbackWalker(c *ordCtx, rs *ast.RangeStmt, self types.Object) bool {
+	fobj, _ := c.pkg.TypesInfo.Defs[c.fd.Name].(*types.Func)
+	fi := c.w.Funcs[fobj]
+	if fi == nil || types.Object(fobj) != self {
+		return false
+	}
+	// the acceptance: a statement before the loop `if out := P(x); out != nil { return out }` with P a parameter
+	pi := -1
+	for _, st := range c.fd.Body.List {
+		is, ok := st.(*ast.IfStmt)
+		if !ok || st.Pos() > rs.Pos() || is.Init == nil {
+			continue
+		}
+		as, ok := is.Init.(*ast.AssignStmt)
+		if !ok || len(as.Rhs) != 1 {
+			continue
+		}
+		call, ok := as.Rhs[0].(*ast.CallExpr)
+		if !ok {
+			continue
+		}
+		if id := identOf(call.Fun); id != nil {
+			if k := paramIndex(fi, objOf(c.info, id)); k >= 0 {
+				pi = k
+			}
+		}
+	}
+	if pi < 0 {
+		return false
+	}
+	sites := 0
+	for _, caller := range sortedFuncs(c.w) {
+		if caller.Decl.Body == nil {
+			continue
+		}
+		cinfo := caller.Pkg.TypesInfo
+		bad := false
+		ast.Inspect(caller.Decl.Body, func(x ast.Node) bool {
+			call, ok := x.(*ast.CallExpr)
+			if !ok || pi >= len(call.Args) {
+				return true
+			}
+			fn := calleeOf(cinfo, call)
+			if fn == nil || (fn != fobj && fn.Origin() != fobj) {
+				return true
+			}
+			arg := call.Args[pi]
+			if caller == fi {
+				if aid := identOf(arg); aid != nil && paramIndex(fi, objOf(cinfo, aid)) == pi {
+					return true // the recursive call hands the callback on
+				}
+			}
+			sites++
+			if !uniqueMatcher(c.w, caller, arg) {
+				bad = true
+			}
+			return true
+		})
+		if bad {
+			return false
+		}
+	}
+	return sites > 0
 }
